@@ -128,6 +128,10 @@ def _impl(tier, seed, search):
                 if ok2 and cpn is not None:
                     cw = np.asarray(cpn.w, float)
                     L.close('commonperp:orthogonal', [float(np.dot(cw, d)) / (np.linalg.norm(cw) * np.linalg.norm(d)), float(np.dot(cw, e)) / (np.linalg.norm(cw) * np.linalg.norm(e))], [0.0, 0.0], TOL, 1.0, pinp)
+                    cv = np.asarray(cpn.v, float)
+                    # the result must itself be a line: its moment is orthogonal to its direction
+                    L.close('commonperp:pluecker', float(np.dot(cv, cw)) / max(1e-300, float(np.linalg.norm(cw)) ** 2), 0.0, TOL, s2, pinp,
+                            what='the common perpendicular returned is not a line: its moment is not orthogonal to its direction', sig='commonperp:pluecker')
                     cpp, cuw = np.asarray(cpn.pp, float), np.asarray(cpn.uw, float)
                     # meets both lines: distance between the common perpendicular and each line is zero
                     def ll_dist(p1, d1, p2, d2):
